@@ -73,3 +73,37 @@ Theorem C12_visit_cases :
     end.
 Proof. exact FrontUsable.visit_cases. Qed.
 Print Assumptions C12_visit_cases.
+
+From YG Require Import LRBase LR0Build LR0Limit.
+Close Scope Z_scope.
+Open Scope nat_scope.
+
+(* the built-in limit: the model stops with 'too many states' only if the LR(0) collection it would build with any larger fuel has 2000 states or more (ComputeAllGoto panics when the collection reaches 2000 states) *)
+Theorem C12_state_limit :
+  forall (g : grammar) (F : nat) (aut : list state),
+         build g = None ->
+         build_loop F g [{| items := closure g [(0, 0)]; gotos := [] |}] 0 = Some aut -> 2000 <= length aut.
+Proof. exact LR0Limit.build_none_means_many. Qed.
+Print Assumptions C12_state_limit.
+
+From YG Require Import LRBase LR0Build LR0Limit.
+Close Scope Z_scope.
+Open Scope nat_scope.
+
+(* below the limit the fuel is irrelevant: every grammar whose collection has fewer than 2000 states is processed *)
+Theorem C12_below_limit :
+  forall (g : grammar) (F : nat) (aut : list state),
+         build_loop F g [{| items := closure g [(0, 0)]; gotos := [] |}] 0 = Some aut ->
+         length aut < 2000 -> build g = Some aut.
+Proof. exact LR0Limit.build_fuel_irrelevant. Qed.
+Print Assumptions C12_below_limit.
+
+From YG Require Import LRBase LR0Build LR0Limit.
+Close Scope Z_scope.
+Open Scope nat_scope.
+
+(* and a delivered automaton has fewer than 2000 states *)
+Theorem C12_delivered_below_limit :
+  forall (g : grammar) (aut : automaton), build g = Some aut -> length aut < 2000.
+Proof. exact LR0Limit.build_some_below_limit. Qed.
+Print Assumptions C12_delivered_below_limit.
